@@ -97,6 +97,16 @@ Theorem C01_session_step_partial : forall e, env_okb e = true -> forall fuel cod
 Proof. exact c01_execute. Qed.
 Print Assumptions C01_session_step_partial.
 
+(* EXEC (outside [in_fragment] as an instruction of programs, but proved for every lambda whose body is in the
+   fragment): pytezos runs the body on a fresh one-element stack, checks the classes of argument and result and pushes
+   the result — with the same outcome as the reference rule, FAILWITH and run-time errors inside the body included *)
+Theorem C01_exec_partial : forall e, env_okb e = true -> forall fuel a b body param rest hid,
+  in_fragment body -> typecheck_nr body [a] = Some (Typed [b]) -> typed param a ->
+  erase_outcome (py_eval e (S fuel) I_EXEC (mkst hid (param :: PLam a b body :: rest)))
+  = ref_eval e (S fuel) I_EXEC (map erase (param :: PLam a b body :: rest)).
+Proof. exact c01_exec. Qed.
+Print Assumptions C01_exec_partial.
+
 (* the reference semantics never gets stuck on these programs (sanity of the transcription) *)
 Theorem C01_ref_progress_partial : forall e, env_okb e = true -> forall fuel code st R inputs,
   in_fragment code -> typecheck_nr code st = Some R -> stack_typed inputs st ->
